@@ -500,5 +500,9 @@ def replay(path):
             print('ini layer', {k: canon(v) for k, v in o.next.__dict__.items() if k not in ('next', '_autoinit')})
         print('compare with: ' + d['what'])
         return 1
+    if r.get('kind') == 'store':
+        print(d['what'])
+        import datetime as _dt
+        return core.replay_family('C20', d['key'], lambda run: store_family(run, None, core.rng_for(0, 'c20-replay'), _dt.datetime.now().strftime('%Y-%m-%d'), True))
     print(d['what'])
     return 1
